@@ -423,6 +423,8 @@ class PlanJoinTablesQuery:
         # workaround for 'model join table': swap tables:
         if len(join_sequence) == 3 and join_sequence[0].predictor_info is not None:
             join_sequence = [join_sequence[1], join_sequence[0], join_sequence[2]]
+            # the join condition is kept by the right table: the model has to see it to map its columns
+            join_sequence[1].join_condition = join_sequence[0].join_condition
 
         self.check_use_limit(query_in, join_sequence, query)
 
